@@ -275,7 +275,16 @@ func phaseInvalid(r *lib.Run) {
 	for _, cls := range invalidClasses {
 		for i := 0; i < per; i++ {
 			rng := r.Rng(fmt.Sprintf("invalid/%s/%d", cls.Name, i))
-			s := genValid(rng)
+			// "otherwise valid": the base set must itself be accepted by both front
+			// ends, so that a refusal (or a one-sided acceptance) is due to the class
+			var s *settingSet
+			for attempt := 0; attempt < 6; attempt++ {
+				s = genValid(rng)
+				if evalCLI(renderArgv(rng, s).Argv, nil).ok() && evalYAML(renderYAML(rng, s).YAML).ok() {
+					break
+				}
+				r.Count("invalid.base-regenerated")
+			}
 			variant := cls.apply(rng, s, i)
 			fr, rend := evalAll(rng, s)
 			r.Eval()
